@@ -35,3 +35,175 @@ fn replay_c11() {
     println!("OUT differs={}", differs);
     println!("OUT witness={}", witness);
 }
+
+/// Native replay for the packing laws: every name of <= 3 characters over an adversarial alphabet is
+/// encoded by the real `encode`, compared with a reference packing written here, decoded by the real
+/// `decode`, and all clean names (no character in 0x3800..=0x4840) are checked to round-trip and to
+/// encode pairwise differently.
+#[test]
+fn replay_packing() {
+    fn b64(c: char) -> Option<u32> {
+        ALPHABET.find(c).map(|i| i as u32)
+    }
+    fn reference(name: &[char], is_table: bool) -> String {
+        let mut out = String::new();
+        if is_table {
+            out.push('\u{4840}');
+        }
+        let mut i = 0;
+        while i < name.len() {
+            match b64(name[i]) {
+                Some(v1) => {
+                    if i + 1 < name.len() {
+                        if let Some(v2) = b64(name[i + 1]) {
+                            out.push(char::from_u32(0x3800 + (v2 << 6) + v1).unwrap());
+                            i += 2;
+                            continue;
+                        }
+                    }
+                    out.push(char::from_u32(0x4800 + v1).unwrap());
+                }
+                None => out.push(name[i]),
+            }
+            i += 1;
+        }
+        out
+    }
+    let alphabet: Vec<char> = vec!['0', '9', 'A', 'z', '.', '_', '-', ' ', '/', '\u{5}', 'é', '\u{37ff}', '\u{4841}', '\u{10000}'];
+    let mut names: Vec<Vec<char>> = vec![vec![]];
+    for len in 1..=3usize {
+        let mut idx = vec![0usize; len];
+        loop {
+            names.push(idx.iter().map(|&i| alphabet[i]).collect());
+            let mut k = 0;
+            while k < len {
+                idx[k] += 1;
+                if idx[k] < alphabet.len() {
+                    break;
+                }
+                idx[k] = 0;
+                k += 1;
+            }
+            if k == len {
+                break;
+            }
+        }
+    }
+    let mut witness: Option<String> = None;
+    let mut seen: std::collections::HashMap<String, String> = std::collections::HashMap::new();
+    let mut checked = 0u64;
+    for n in names.iter() {
+        let name: String = n.iter().collect();
+        for is_table in [false, true] {
+            let enc = streamname::encode(&name, is_table);
+            checked += 1;
+            if enc != reference(n, is_table) {
+                witness = Some(format!("encode({:?}, {}) = {:?}, the reference packing is {:?}", name, is_table, enc, reference(n, is_table)));
+                break;
+            }
+            let (dec, t) = streamname::decode(&enc);
+            if dec != name || t != is_table {
+                witness = Some(format!("decode(encode({:?}, {})) = ({:?}, {})", name, is_table, dec, t));
+                break;
+            }
+        }
+        if witness.is_some() {
+            break;
+        }
+        let enc = streamname::encode(&name, false);
+        if let Some(other) = seen.insert(enc.clone(), name.clone()) {
+            if other != name {
+                witness = Some(format!("{:?} and {:?} both encode to {:?}", other, name, enc));
+                break;
+            }
+        }
+    }
+    // names the library accepts as stream names must not collide once encoded, whatever characters they contain
+    if witness.is_none() {
+        let odd: Vec<char> = vec!['0', 'a', '_', '-', '\u{3800}', '\u{3841}', '\u{4800}', '\u{483f}', '\u{4840}', '\u{4841}'];
+        let mut accepted: std::collections::HashMap<String, String> = std::collections::HashMap::new();
+        'acc: for a in odd.iter() {
+            for b in odd.iter().map(Some).chain(std::iter::once(None)) {
+                let name: String = std::iter::once(*a).chain(b.copied()).collect();
+                if !streamname::is_valid(&name, false) {
+                    continue;
+                }
+                checked += 1;
+                let enc = streamname::encode(&name, false);
+                if let Some(other) = accepted.insert(enc.clone(), name.clone()) {
+                    if other != name {
+                        witness = Some(format!("the accepted stream names {:?} and {:?} both encode to {:?}", other, name, enc));
+                        break 'acc;
+                    }
+                }
+                let (dec, t) = streamname::decode(&enc);
+                if dec != name || t {
+                    witness = Some(format!("the accepted stream name {:?} is stored as {:?} and listed as ({:?}, table: {})", name, enc, dec, t));
+                    break 'acc;
+                }
+            }
+        }
+    }
+    // decode against a reference unpacking, on arbitrary stored names (including the packing's own code points)
+    fn unb64(v: u32) -> char {
+        ALPHABET.chars().nth(v as usize).unwrap()
+    }
+    if witness.is_none() {
+        let stored: Vec<char> = vec!['a', '-', '\u{3800}', '\u{3841}', '\u{47ff}', '\u{4800}', '\u{483f}', '\u{4840}', '\u{4841}', '\u{37ff}'];
+        let mut idx = [0usize; 3];
+        'outer: for len in 0..=3usize {
+            for i in idx.iter_mut() {
+                *i = 0;
+            }
+            loop {
+                let name: Vec<char> = idx[..len].iter().map(|&i| stored[i]).collect();
+                let text: String = name.iter().collect();
+                let mut want = String::new();
+                let mut want_table = false;
+                for (pos, &c) in name.iter().enumerate() {
+                    let v = c as u32;
+                    if pos == 0 && v == 0x4840 {
+                        want_table = true;
+                    } else if (0x3800..0x4800).contains(&v) {
+                        want.push(unb64((v - 0x3800) & 0x3f));
+                        want.push(unb64((v - 0x3800) >> 6));
+                    } else if (0x4800..0x4840).contains(&v) {
+                        want.push(unb64(v - 0x4800));
+                    } else {
+                        want.push(c);
+                    }
+                }
+                let got = std::panic::catch_unwind(|| streamname::decode(&text));
+                checked += 1;
+                match got {
+                    Ok((d, t)) if d == want && t == want_table => {}
+                    Ok((d, t)) => {
+                        witness = Some(format!("decode({:?}) = ({:?}, {}), the reference unpacking is ({:?}, {})", text, d, t, want, want_table));
+                        break 'outer;
+                    }
+                    Err(_) => {
+                        witness = Some(format!("decode({:?}) panics", text));
+                        break 'outer;
+                    }
+                }
+                let mut k = 0;
+                while k < len {
+                    idx[k] += 1;
+                    if idx[k] < stored.len() {
+                        break;
+                    }
+                    idx[k] = 0;
+                    k += 1;
+                }
+                if k == len {
+                    break;
+                }
+            }
+        }
+    }
+    println!("OUT checked={}", checked);
+    println!("OUT differs={}", if witness.is_some() { 1 } else { 0 });
+    if let Some(w) = witness {
+        println!("OUT witness={}", w);
+    }
+}
